@@ -62,4 +62,18 @@ CHECKS = {
         "note": "Interleavings are those at await boundaries that carry a yield point; bounded client histories (quick: 1 doc, "
                 "thorough: 1 doc x 4 versions, 2 docs x 2 versions); tokio lock fairness and tower-lsp start order as documented.",
     },
+    "C10": {
+        "level": "model_checking",
+        "technique": "TLA+ spec Layout (transcription of the lexer's INDENT/DEDENT/NEWLINE algorithm over character classes): TLC "
+                     "exhaustive edit-invariance; token streams replayed into the real lexer; ASTs of real programs compared under "
+                     "every edit kind; real token streams validated by TLC (LayoutTrace)",
+        "text": "Layout.tla transcribes scan_token/handle_indentation; TLC proves on every class string up to the bound and on "
+                "structured multi-line texts that every single layout edit and uniform re-indentation leaves the normalised token "
+                "stream unchanged. The transcription is tied to the code by feeding every printed text to the real lexer (exact "
+                "token-class stream), the parser's insensitivity is checked on real programs (frozen corpus of the repository's "
+                ".incn files + construct corpus) under every edit kind at sampled positions by AST equality, and real token "
+                "streams of real files are validated against the spec by TLC.",
+        "note": "Class abstraction (atoms are single-character tokens); edits are never placed inside multi-line string tokens; "
+                "AST-level positions are sampled per file (seeded).",
+    },
 }
